@@ -463,6 +463,9 @@ class SignatureV4(Signature):
 
     def parse(self, packet):
         super(Signature, self).parse(packet)
+        # octets in the buffer that follow this packet (the version octet has been consumed with the header)
+        rest = len(packet) - (self.header.length - 1)
+
         self.sigtype = packet[0]
         del packet[0]
 
@@ -477,7 +480,14 @@ class SignatureV4(Signature):
         self.hash2 = packet[:2]
         del packet[:2]
 
-        self.signature.parse(packet)
+        if isinstance(self.signature, OpaqueSignature):
+            # integers of an algorithm not known here: they are what is left of this packet's body, and only that
+            left = max(len(packet) - rest, 0)
+            self.signature.parse(packet[:left])
+            del packet[:left]
+
+        else:
+            self.signature.parse(packet)
 
 
 class SKESessionKey(VersionedPacket):
